@@ -444,6 +444,9 @@ func (g *gen) step(prop string) []CStep {
 			return []CStep{CStep{Op: "audop", A: r.Intn(6), B: r.Intn(6), N: r.Intn(4), V: []string{"approve", "approve", "reject"}[r.Intn(3)],
 				Act: []string{"regnode", "logoutnode", "logoutnode", "updatenode", "regadmin", "bind", "bind", "logoutrole", "logoutrole", "decide", "decide", "decide", "withdraw", "selfupdate"}[r.Intn(14)]}}
 		}
+		if r.Chance(0.04) {
+			return []CStep{CStep{Op: "withdraw", N: r.Intn(64)}}
+		}
 		if prop == "C15" && r.Chance(0.02) {
 			return []CStep{CStep{Op: "rolecycle", A: r.Intn(4), B: r.Intn(4), N: r.Intn(3)}}
 		}
